@@ -33,6 +33,8 @@ SPEC = {
         "C10: translate/c10_consts.py — (a) literal extractor: per retain level of remove_dummy.rs the arguments of starts_with(…), the MethodName::… constants and == \"…\" comparisons; the prefix of the one format!(\"<prefix>{}\", index) of insert_dummy.rs; the string literal of each MethodName constant referred to; identifiers resolved through const/static/let string definitions of the same file; canonical order; output coq/C10/Consts.v pinned by theorem C10_placeholder_constants. (b) shape extractor (round 4): the tail expression of every retain closure of remove_dummy.rs and insert_dummy.rs parsed as a boolean expression (||, &&, !, parentheses, braces) over the atoms javadoc.is_some() / javadoc[.as_ref()].is_diff(), <children>.is_empty(), the whole name test names[ns].as_ref().is_some_and(|x| disjunction of x.as_inner().starts_with(…) / x == …), the `let <check> = match &v.info {…}` variable and info.is_diff(); per arm of that match its boolean value and whether it assigns Action::Edit(…); whether every prefix test is on <x>.as_inner(); output coq/C10/Shapes.v (Gallina boolean functions) pinned by C10_retain_shapes for all values of the atoms and connected to the model by C10_model_uses_shapes. Fails closed on: a literal that cannot be found or is ambiguous, a term in a condition that is none of the known atoms, a name test that is not a plain disjunction, a statement in a closure other than nested retains / the check match / a local fn, a match that does not list the four Action variants. Tolerant of (tested on mutated copies by translate/c10_mutation_test.py, 16 mutations): renaming closure parameters or the check variable, reordering || operands, De Morgan rewrites, extra parentheses, hoisting a literal into a const. What it does not see: the three key-derived placeholders (k.name.clone(), p_<index>, get_inner_class_name) — tied by the correspondence run and the reference oracle; shape observations are reported as `translator note:` lines among the assumptions",
         "C10: the specification side of the theorems is the declarative reading in coq/C10/Theory.v (Placeholder, Kept*, Retained, Spec*, Changes, Rewritten), restated definition by definition in C10_kept_definitions / C10_insert_definitions so that the pinned statements are self-explanatory",
         "C10: the harness' independent reference of the documented rules (harness/src/bin/c10.rs ref_*: literal prefixes, bottom-up Option-returning recursion) is the oracle used to search for failing inputs on the implementation",
+        "C10: inner_class_name of coq/C10/Model.v is C10's own transcription of ObjClassNameSlice::get_inner_class_name; it is proved equal to C18's split_inner / inner_name (C10_inner_class_name_is_C18, C10_class_placeholder_is_C18; C10's Coq build therefore depends on coq/C18/Model.v), compared with the real function on 30 key shapes (CInner), and C10_dollar_leading_key_kept states the `$`-leading case in closed form",
+        "C10: JavaStr::starts_with / == on the names is modelled on lists of code points (prefixes and exact names are ASCII); exercised by the exotic-names stream (unpaired surrogates, non-BMP, control characters around the prefixes)",
         "C10: the model's diff tree (coq/C10/Model.v mdiff) stores IndexMap keys beside the nodes; the harness builds MappingsDiff by inserting into the public IndexMaps",
     ],
     "assumptions": [
